@@ -367,7 +367,7 @@ func (w *world) versionCase(run *lib.Run, seed uint64, v int, rng *lib.Rand, nq 
 		qs = append(qs, fmt.Sprintf("{| q_lo := %s; q_hi := %s; q_range := %s; q_keys := %s; q_http_keyrange := %s; q_http_json := %s; q_http_tar := %s |}",
 			lib.CoqString(lo), lib.CoqString(hi), resList(rcls, rItems), resList(kcls, kItems), resList(hcls, strItems(hl)), hj, ht))
 	}
-	term := bd.Wrap(fmt.Sprintf("CVersion %d %d\n   %s\n   %s\n   [%s]\n   %s\n   %s\n   [%s]", w.inst, w.verID(v), coqStore(bd, entries), table,
+	term := bd.Wrap(fmt.Sprintf("CVersion %d %d %s\n   %s\n   %s\n   [%s]\n   %s\n   %s\n   [%s]", w.inst, w.verID(v), w.dagTerm(), coqStore(bd, entries), table,
 		strings.Join(pts, "; "), allKeys, multi, strings.Join(qs, ";\n    ")))
 	run.Count(fmt.Sprintf("versions-in-history:%d", len(w.h.UUIDs)))
 	run.Add("version", term, jcase{Kind: "version", Seed: seed, Version: v, Special: w.special}, fmt.Sprintf("version/%d/%d", seed, v))
@@ -447,6 +447,30 @@ func intervalKind(lo, hi string, universe []string) string {
 }
 
 // parents of every version, from the recorded child requests
+// dagTerm: the version DAG in DVID version ids, one row per version (the root with no parents), for
+// the refinement checker (Model/KVRangeRun.v refine_version_ok / refine_delete_ok); "[]" = not given
+func (w *world) dagTerm() string {
+	ps := w.parents()
+	n := len(w.h.UUIDs)
+	for c := range ps {
+		if c > n {
+			return "[]"
+		}
+	}
+	if len(ps) != n-1 {
+		return "[]"
+	}
+	rows := make([]string, 0, n)
+	for v := 1; v <= n; v++ {
+		var pl []string
+		for _, p := range ps[v] {
+			pl = append(pl, fmt.Sprintf("%d", w.verID(p)))
+		}
+		rows = append(rows, fmt.Sprintf("(%d, [%s])", w.verID(v), strings.Join(pl, "; ")))
+	}
+	return "[" + strings.Join(rows, "; ") + "]"
+}
+
 func (w *world) parents() map[int][]int {
 	ps := map[int][]int{}
 	n := 1
@@ -556,6 +580,7 @@ func (w *world) deleteRangeCases(run *lib.Run, seed uint64, rng *lib.Rand, count
 		sort.Ints(vs[1:])
 		bd := lib.NewBinder()
 		before := w.dump()
+		dagBefore := w.dagTerm()
 		table := w.table(bd, v, before)
 		reads := func() string {
 			var ss []string
@@ -619,7 +644,7 @@ func (w *world) deleteRangeCases(run *lib.Run, seed uint64, rng *lib.Rand, count
 		if !emit {
 			continue
 		}
-		term := bd.Wrap(fmt.Sprintf("CDeleteRange %d %d\n   %s\n   %s\n   %s %s %s\n   %s\n   %s\n   %s\n   %s %s %s\n   %s", w.inst, w.verID(v), coqStore(bd, before), table,
+		term := bd.Wrap(fmt.Sprintf("CDeleteRange %d %d %s\n   %s\n   %s\n   %s %s %s\n   %s\n   %s\n   %s\n   %s %s %s\n   %s", w.inst, w.verID(v), dagBefore, coqStore(bd, before), table,
 			bd.Bytes(tkeyOf(lo)), bd.Bytes(tkeyOf(hi)), lib.CoqBool(ok), coqStore(bd, after), rb, ra, kb, ka, kin, desc))
 		run.Count("delete-range-ends:" + mode + "/visible-now:" + endsVisible(lo, hi, visible))
 		run.Add("delete-range", term, jcase{Kind: "deleterange", Seed: seed, Special: w.special, N: n}, fmt.Sprintf("deleterange/%d/%d", seed, n))
@@ -949,7 +974,7 @@ func multiClass(run *lib.Run, seed uint64, n int, thorough bool, only string, re
 		if !emit {
 			continue
 		}
-		term := bd.Wrap(fmt.Sprintf("CDeleteRange %d %d\n   %s\n   %s\n   %s %s %s\n   %s\n   %s\n   %s\n   %s %s %s\n   []", w.inst, w.verID(v), coqStore(bd, before), table,
+		term := bd.Wrap(fmt.Sprintf("CDeleteRange %d %d []\n   %s\n   %s\n   %s %s %s\n   %s\n   %s\n   %s\n   %s %s %s\n   []", w.inst, w.verID(v), coqStore(bd, before), table,
 			bd.Bytes(q.lo), bd.Bytes(q.hi), lib.CoqBool(ok), coqStore(bd, after), rb, ra, kb, ka, kin))
 		run.Count("multiclass-delete-range:" + q.kind)
 		run.Add(kindName+"-delete", term, jcase{Kind: kindName, Seed: seed, Special: fmt.Sprintf("d%d", j+1)}, fmt.Sprintf("%s-del/%d/%d", kindName, seed, j))
